@@ -175,7 +175,7 @@ func init() {
 		Plan: func(tier string, seed int64) *harness.Plan {
 			var hf *histFuncs
 			return &harness.Plan{
-				N: size(tier, 60000, 800000),
+				N: size(tier, 60000, 2000000),
 				Setup: func(c *harness.Ctx) {
 					hooks.Configure(hooks.Options{PoisonContainers: true, PoisonKeys: true, ScrambleKeys: 4, CaptureTree: true})
 					hooks.ResetCounters()
